@@ -26,6 +26,21 @@ type Hk struct {
 	Class int
 	// Ratio is computed by Transform; for class 8 the result has no JSON form (NaN)
 	Ratio float64
+	// LU: the case constraint is written before unique in the tag
+	LU string `sod:"lower,unique"`
+	// Q: a case constraint on a named string type
+	Q Queue `sod:"lower"`
+	// Plain: no tag; one configuration gives it a lower constraint through a custom schema only
+	Plain string
+}
+
+type Queue string
+
+// hkPlainLower: the schema in use declares Plain lower-case (custom schema, not the tags)
+var hkPlainLower bool
+
+func newHk(name, u string) *Hk {
+	return &Hk{Name: name, U: u, LU: "Lu" + u, Q: Queue("Qq" + name), Plain: "Pl" + name}
 }
 
 type hkEvent struct {
@@ -59,6 +74,9 @@ func (h *Hk) Validate() error {
 	if !strings.HasSuffix(h.Name, "tx") || h.Name != strings.ToLower(h.Name) || h.U != strings.ToUpper(h.U) || !strings.HasPrefix(h.Mark, "seen:") {
 		return errHkInvalid
 	}
+	if h.LU != strings.ToLower(h.LU) || string(h.Q) != strings.ToLower(string(h.Q)) || (hkPlainLower && h.Plain != strings.ToLower(h.Plain)) {
+		return errHkInvalid
+	}
 	return nil
 }
 
@@ -79,11 +97,16 @@ func hkDump() uint64 {
 type hkModel map[string]string // uuid -> json of expected stored value
 
 func expectHk(name, u string, class int) *Hk {
-	return &Hk{Name: strings.ToLower(name + "TX"), U: strings.ToUpper(u), Mark: "seen:" + u, Class: class}
+	h := &Hk{Name: strings.ToLower(name + "TX"), U: strings.ToUpper(u), Mark: "seen:" + u, Class: class,
+		LU: strings.ToLower("Lu" + u), Q: Queue(strings.ToLower("Qq" + name)), Plain: "Pl" + name}
+	if hkPlainLower {
+		h.Plain = strings.ToLower(h.Plain)
+	}
+	return h
 }
 
 func runC15(c *Ctx) {
-	cfgs := []Cfg{{}, {Cache: true}, {Async: 1}, {Cache: true, Compress: true, Async: 2}}
+	cfgs := []Cfg{{}, {Cache: true}, {Async: 1}, {Cache: true, Compress: true, Async: 2}, {Index: 2}}
 	names := []string{"ab", "AB", "", "Zz"}
 	// entry points x position of the offender
 	type scen struct {
@@ -137,13 +160,23 @@ func runC15(c *Ctx) {
 					hkWorld = w
 					defer func() { hkWorld = nil }()
 					db := w.DB
-					if err := db.Create(&Hk{}, cfg.Schema(&Hk{})); err != nil {
+					sch := cfg.Schema(&Hk{})
+					hkPlainLower = cfg.Index == 2
+					if hkPlainLower {
+						// a constraint that exists only in a hand-built schema
+						fds := sod.FieldDescriptors(&Hk{})
+						fds.Constraint("Plain", sod.Constraints{Lower: true})
+						custom := sod.NewCustomSchema(fds, sod.DefaultExtension)
+						custom.Cache, custom.Compress, custom.AsyncWrites = sch.Cache, sch.Compress, sch.AsyncWrites
+						sch = custom
+					}
+					if err := db.Create(&Hk{}, sch); err != nil {
 						fail("create", "Create(Hk) failed: "+err.Error())
 						return
 					}
 					stored := hkModel{}
 					for i := 0; i < sc.Pre; i++ {
-						h := &Hk{Name: fmt.Sprintf("pre%d", i), U: fmt.Sprintf("pre%d", i)}
+						h := newHk(fmt.Sprintf("pre%d", i), fmt.Sprintf("pre%d", i))
 						if err := db.InsertOrUpdate(h); err != nil {
 							fail("pre-insert", "plain insert failed: "+err.Error())
 							return
@@ -168,7 +201,7 @@ func runC15(c *Ctx) {
 					var objs []sod.Object
 					var hs []*Hk
 					for i := 0; i < sc.N; i++ {
-						h := &Hk{Name: name, U: fmt.Sprintf("%s-m%d", name, i)}
+						h := newHk(name, fmt.Sprintf("%s-m%d", name, i))
 						if i == sc.Offender {
 							h.Class = 9
 							if sc.NaN {
